@@ -70,8 +70,13 @@ def gen_config(rng):
     init = [rng.getrandbits(w) if w else 0 for _ in range(depth)]
     if rng.random() < 0.3:
         init = init[:rng.randrange(0, depth + 1)]
-    return {"shape": shape, "depth": depth, "init": init, "domains": doms, "wports": wports, "rports": rports,
-            "resets": rng.random() < 0.3}
+    cfg = {"shape": shape, "depth": depth, "init": init, "domains": doms, "wports": wports, "rports": rports,
+           "resets": rng.random() < 0.3}
+    if len(dn) == 2 and rng.random() < 0.4:
+        # the memory sits under a DomainRenamer that exchanges the two domains: its ports are declared in the
+        # opposite domain (one simultaneous substitution; the order of the map entries must not matter)
+        cfg["renamed"] = [["d0", "d1"], ["d1", "d0"]] if rng.random() < 0.5 else [["d1", "d0"], ["d0", "d1"]]
+    return cfg
 
 
 def width_of(shape):
@@ -164,9 +169,17 @@ def build(cfg):
         b.cds[name] = cd
     shape = real_shape(cfg["shape"])
     mem = Memory(shape=shape, depth=cfg["depth"], init=[real_init(cfg["shape"], v) for v in cfg["init"]])
-    m.submodules.mem = mem
-    b.wps = [mem.write_port(domain=p["domain"], granularity=p["gran"]) for p in cfg["wports"]]
-    b.rps = [mem.read_port(domain=p["domain"], transparent_for=[b.wps[i] for i in p["transparent_for"]]) for p in cfg["rports"]]
+    ren = cfg.get("renamed")
+    declared = (lambda d: d)
+    if ren:
+        from amaranth.hdl import DomainRenamer
+        inverse = {dst: src for src, dst in ren}
+        declared = (lambda d: inverse.get(d, d))
+        m.submodules.mem = DomainRenamer({src: dst for src, dst in ren})(mem)
+    else:
+        m.submodules.mem = mem
+    b.wps = [mem.write_port(domain=declared(p["domain"]), granularity=p["gran"]) for p in cfg["wports"]]
+    b.rps = [mem.read_port(domain=declared(p["domain"]), transparent_for=[b.wps[i] for i in p["transparent_for"]]) for p in cfg["rports"]]
     b.m, b.mem = m, mem
     return b
 
@@ -368,7 +381,12 @@ def cosim(cfg, steps, out, use_rtlil=True):
             except E.EvalError:
                 pass       # a zero-width or optimised-away port
 
+    restarted = [False]
+
     async def tb(ctx):
+        if restarted[0]:
+            return          # (the restart checks below only read the rows)
+
         def compare(n, st):
             for j, rp in enumerate(b.rps):
                 sv = ctx.get(Value.cast(rp.data)) & full
@@ -495,10 +513,52 @@ def cosim(cfg, steps, out, use_rtlil=True):
         sim.run()
     except E.EvalError as ex:
         V("rtlil-evaluation-error", error=str(ex)[:300])
+        return
     except Exception as ex:
         if exc_origin(ex) != "repo":
             raise
         V(f"simulation-exception:{type(ex).__name__}", steps=steps, exception=repr(ex)[:300])
+        return
+    if viol and viol[-1]["detail"].get("config") is cfg:
+        return
+    # the declared initial contents are a property of the design, not of one run: after the simulation above
+    # (which wrote rows through ports and directly) the same design still declares them, a simulator created on
+    # it afresh and the first one after reset() both start from them, and it still converts to the same RTLIL
+    declared = [(cfg["init"][i] if i < len(cfg["init"]) else default_row(cfg["shape"])) & full for i in range(cfg["depth"])]
+    try:
+        from amaranth.hdl import Const
+        now = [Const.cast(Const(x, b.mem.shape) if not isinstance(x, int) else Const(x, w)).value & full for x in b.mem.init] if w else [0] * cfg["depth"]
+        if now != declared:
+            V("declared-init-changed-by-simulation", init_after=now, declared=declared)
+            return
+        for label in ("fresh-simulator-on-the-same-design", "same-simulator-after-reset"):
+            seen = []
+
+            async def tb2(ctx):
+                for i in range(cfg["depth"]):
+                    v = ctx.get(b.mem.data[i])
+                    seen.append(Const.cast(Const(v, b.mem.shape)).value & full if not isinstance(v, int) else v & full)
+            if label.startswith("fresh"):
+                s2 = Simulator(b.m)
+                s2.add_testbench(tb2)
+            else:
+                s2 = sim
+                restarted[0] = True
+                s2.reset()
+                s2.add_testbench(tb2)
+            s2.run()
+            out["extra"]["restart_row_reads"] = out["extra"].get("restart_row_reads", 0) + len(seen)
+            if seen != declared:
+                V("memory-does-not-start-from-declared-init:" + label, rows=seen, declared=declared)
+                return
+        if use_rtlil:
+            again = rtlil.convert(b.m, ports=port_map(b, cfg), emit_src=False)
+            if again != text:
+                V("rtlil-of-the-design-differs-after-simulating-it")
+    except Exception as ex:
+        if exc_origin(ex) != "repo":
+            raise
+        V(f"restart-exception:{type(ex).__name__}", exception=repr(ex)[:300])
 
 
 def enum_configs():
